@@ -40,7 +40,7 @@ func plainReference(c *Ctx, w *Work, out string, stripped bool) bool {
 func checkC01(c *Ctx) {
 	c.SetRule("programs are composed from feature modules (structs, embedding incl. embedded alias of a generic struct from another package, aliases, generics, interfaces with unexported methods, " +
 		"closures, type switches, labels/goto, method values/expressions, cross-package struct conversions, dot/named/blank imports, import paths with dots, package name != directory, amd64 assembly with go_asm.h names, " +
-		"//go:linkname pulls incl. methods, init chains, -ldflags=-X on main and library vars, internal/external tests with TestMain) spread over 3-5 packages; each is built by the regular toolchain (precondition) and by garble under each config; " +
+		"//go:linkname pulls incl. methods, init chains, -ldflags=-X on main and library vars, internal/external tests with TestMain, //go:embed of string/[]byte/embed.FS, standard-library generics and iterators over program types, generic aliases and recursive generic types, files selected by GOOS/GOARCH suffixes and //go:build lines, unsafe.Offsetof/Sizeof constants and layout casts, anonymous struct types in every position with tags, stringer-style enums, cgo) spread over 3-5 packages; each is built by the regular toolchain (precondition) and by garble under each config; " +
 		"stdout and exit status are compared on several argument vectors; `test` compares verdict lines, `run` compares stdout+status. " +
 		"distinct_nontrivial = distinct (feature-set, config, subcommand) cases whose obfuscated binary lost >=1 marker identifier that the regular binary contains.")
 	c.Assume("generated programs never print identifier names, positions, build metadata, map order or addresses", "only linux/amd64 binaries are executed")
@@ -53,6 +53,12 @@ func checkC01(c *Ctx) {
 	}
 	pool := warmPool(g, false, cfgs...)
 	progs := genPrograms(c, "c01", nprog, GenOpts{})
+	for i := range progs {
+		// every fifth program also has a package that imports "C" (never picked at random)
+		if i%5 == 4 {
+			progs[i] = generate(subRand(c.Seed, "c01", c.Tier, i), GenOpts{Extra: []string{"cgo"}})
+		}
+	}
 	featCount := map[string]int{}
 	var fmu sync.Mutex
 
@@ -228,7 +234,7 @@ func pickWith(r interface{ Intn(int) int }, must string, n int) []string {
 // names in the error text (used only to form a stable class key).
 func failingFeature(p *Prog, r Res) string {
 	text := string(r.Err) + string(r.Out)
-	roles := []string{"structs", "embed", "aliasbase", "alias", "generics", "ifacea", "ifaceb", "iface", "closures", "tswitch", "labels", "methvals", "convp", "convq", "conv", "registry", "sideeffect", "imports", "asmdecl", "stub", "asm", "lnimpl", "lnpull", "linkname", "init", "ldx", "consts", "maps", "gor", "errs", "tested", "tdbase", "tddep", "methparam", "_test"}
+	roles := []string{"embedfs", "stdgenuse", "stdgen", "genbase", "genalias", "plat_linux", "plat_amd64", "tagon", "tagcommon", "unsafeops", "anonuse", "anon", "stringer", "cgo", "structs", "embed", "aliasbase", "alias", "generics", "ifacea", "ifaceb", "iface", "closures", "tswitch", "labels", "methvals", "convp", "convq", "conv", "registry", "sideeffect", "imports", "asmdecl", "stub", "asm", "lnimpl", "lnpull", "linkname", "init", "ldx", "consts", "maps", "gor", "errs", "tested", "tdbase", "tddep", "methparam", "_test"}
 	for _, role := range roles {
 		if strings.Contains(text, role+".go") || strings.Contains(text, role+"_amd64.s") {
 			return role
